@@ -109,6 +109,26 @@ func worldUDP(w *World) {
 		}
 	}
 
+	// a transient failure of the client's DialUDP towards the backend (socket exhaustion, route flap) when a new user
+	// appears: that user's datagram may be lost, nothing sent after the fault has cleared may be
+	dialFaultAt := time.Duration(-1)
+	if w.KnobBool("udp_dial_fault", 30) {
+		skip := w.Knob("udp_dial_fault_skip", 0, 3) // let this many dials through first
+		left := 1
+		w.Net.UDPDialFault = func(nd *simnet.Node, raddr string) error {
+			if nd.Name != "frpc1" || !strings.HasSuffix(raddr, ":9200") || left == 0 {
+				return nil
+			}
+			if skip > 0 {
+				skip--
+				return nil
+			}
+			left--
+			dialFaultAt = w.Net.Now()
+			return fmt.Errorf("injected: too many open files")
+		}
+	}
+
 	// backend: reply = 'R' + reversed payload
 	bconn, err := simnet.ListenUDP("udp", &net.UDPAddr{IP: net.ParseIP("127.0.0.1"), Port: 9200})
 	if err != nil {
@@ -314,6 +334,9 @@ func worldUDP(w *World) {
 		for u, res := range results {
 			for _, s := range res.sent {
 				rep := string(mkReply(s.payload))
+				if dialFaultAt >= 0 && s.at > dialFaultAt-time.Second && s.at < dialFaultAt+time.Second {
+					continue // sent around the injected dial failure: may be lost
+				}
 				if backendGot[string(s.payload)] == 0 {
 					viol("delivery", "datagram-lost-at-light-load", "user %d's %d-byte datagram never reached the backend (packet size %d, enc=%v comp=%v sudp=%v, %d users x %d datagrams)", u, len(s.payload), pktSize, enc, comp, sudp, nusers, per)
 					break
